@@ -183,9 +183,17 @@ def run_plan(pid, tier, seed, plan, evidence_name=None):
         violations = 0
         seen = set()
         extra_rejections = max(0, len(rejections) - 3)
-        for r in rejections[:3]:
+        # a rejection is reported only if it repeats when its script runs alone; one that does not (what a script observes can depend on what earlier
+        # scripts of the chunk left in memory - seed S127) is skipped as long as another one repeats; none repeating is a machinery error
+        confirmed, unrepeated = 0, []
+        for r in rejections[:8]:
+            if confirmed >= 3:
+                break
             if not se.confirm_rejection(r["exe"], r, plan["trace_module"], wd, interp_args=r.get("interp_args", ()), trace_env=r.get("trace_env")):
-                raise MachineryError("rejection did not repeat in isolation: %s" % (r.get("script"),))
+                unrepeated.append(r.get("script"))
+                log("%s: a rejection did not repeat in isolation: %s" % (pid, r.get("script"),))
+                continue
+            confirmed += 1
             key = finding_key(pid, r)
             if key in seen:
                 continue
@@ -201,6 +209,8 @@ def run_plan(pid, tier, seed, plan, evidence_name=None):
                                        "trace": ex, "interp_rc": r.get("interp_rc"), "interp_err": r.get("interp_err", ""), "finding_key": key})
             print("VIOLATION property=%s replay=%s" % (pid, replay))
             violations += 1
+        if rejections and confirmed == 0:
+            raise MachineryError("rejection did not repeat in isolation: %s" % (unrepeated[0],))
         for c in cross[:3]:
             replay = write_replay(pid, {"property": pid, "engine": "cross", "what": "worlds that differ only in compiler / standard / optimisation / threading / map / storage "
                                        "pre-fill produced different traces for the same scripts", "detail": c})
